@@ -15,6 +15,9 @@ def main():
     args = sys.argv[1:]
     if "--runs" in args:
         i = args.index("--runs"); runs = args[i + 1]; del args[i:i + 2]
+    own = False
+    if "--own" in args:
+        args.remove("--own"); own = True
     seeds = args or sorted(os.path.basename(os.path.dirname(p)) for p in glob.glob("/verif/seeded/*/patch.diff"))
     checks = [c["property_id"] for c in json.load(open("/verif/MANIFEST.json"))["checks"]]
     rc, o = sh("git -C /repo status --porcelain")
@@ -27,8 +30,11 @@ def main():
         t_all = time.time()
         try:
             rc, o = sh("git -C /repo apply %s" % os.path.join(d, "patch.diff"))
+            if rc != 0:
+                # /repo moved on since the seed was made (a later "fix:" commit next to a hunk): merge
+                rc, o = sh("git -C /repo apply --3way %s && git -C /repo reset -q" % os.path.join(d, "patch.diff"))
             assert rc == 0, o
-            for c in checks:
+            for c in ([meta["property"]] if own else checks):
                 env = ("VERIF_RUNS=%s " % runs) if runs else ""
                 t0 = time.time()
                 rc, o = sh("%s./check %s quick" % (env, c), cwd="/verif", timeout=1800)
@@ -46,6 +52,10 @@ def main():
         finally:
             sh("git -C /repo checkout -- .")
             sh("rm -rf /verif/replays")
+        if own:
+            # a quick look with the seed's own check only: print, do not overwrite the matrix fields
+            print("%s own-check=%s %s %s (%.0fs)" % (sid, "CAUGHT" if caught else "clean", json.dumps(caught)[:400], json.dumps(noted)[:300] + json.dumps(errors)[:300], time.time() - t_all), flush=True)
+            continue
         meta["checks_run"] = checks
         meta["caught_by"] = caught
         meta["not_caught_by"] = clean
